@@ -307,6 +307,49 @@ def make_case(rnd):
     return rd, directives, keywords, sensitive or sniff[0]
 
 
+THREAD_GRAMMARS = ["start: items+=item {',' items+=item} $ ;\n\nitem: name=/[a-z]+/ ['=' value=/[0-9]+/] ;\n",
+                   "@@keyword :: (if then)\n\nstart: e $ ;\n\ne: e '+' t | t ;\n\nt: '(' ~ e ')' | n ;\n\nn: /[0-9]+/ ;\n"]
+
+
+def check_threads(index, nthreads=4, rounds=12):
+    """the JSON form of an object is a function of the object: several threads that convert the SAME model (compile() hands the same
+    object to every caller with the same grammar text) or the same parse result at once each get what a lone call gets"""
+    import sys
+    import threading
+    import tatsu
+    from tatsu.util.asjson import asjson
+    model = tatsu.compile(THREAD_GRAMMARS[index], name='T14')
+    result = model.parse('a=1, b, c=22' if index == 0 else '(1+2)+(3)')
+    shared = {'r': result, 'again': [result, result]}
+    want_model = model.asjsons()
+    want_result = json.dumps(asjson(shared), sort_keys=True)
+    bad = []
+
+    def work(k):
+        for i in range(rounds):
+            try:
+                got = model.asjsons() if (i + k) % 2 else json.dumps(asjson(shared), sort_keys=True)
+            except Exception as e:
+                bad.append((k, i, f'{type(e).__name__}: {str(e)[:100]}'))
+                continue
+            if got != (want_model if (i + k) % 2 else want_result):
+                bad.append((k, i, got[:160]))
+    old = sys.getswitchinterval()
+    sys.setswitchinterval(1e-6)
+    try:
+        ts = [threading.Thread(target=work, args=(k,)) for k in range(nthreads)]
+        for t in ts:
+            t.start()
+        for t in ts:
+            t.join(120)
+    finally:
+        sys.setswitchinterval(old)
+    if bad:
+        return dict(bucket='asjson:concurrent', oracle='concurrent conversions of one object each return what a lone conversion returns',
+                    wrong=len(bad), of=nthreads * rounds, first=bad[0][2], expected=(want_model if (bad[0][0] + bad[0][1]) % 2 else want_result)[:160])
+    return None
+
+
 def plan(tier):
     n = 300 if tier == 'quick' else 4000
     return [dict(kind='grammars', n=n) for _ in range(15)] + [dict(kind='structures', n=0)]
@@ -319,6 +362,13 @@ def run_shard(sh, kind, n):
             sh.case(('structure', k), k != 'plain', ['structure:' + k], sample=dict(structure=k))
             if d:
                 sh.fail(d['bucket'], dict(kind='structure', structure=k), d)
+        for i in range(len(THREAD_GRAMMARS)):
+            for rep in range(3):
+                d = check_threads(i)
+                sh.case(('threads-asjson', i, rep), True, ['one object converted to JSON by several threads at once'], sample=dict(grammar=THREAD_GRAMMARS[i], threads=4, rounds=12))
+                if d:
+                    sh.fail(d['bucket'], dict(kind='threads', index=i), d)
+                    break
         for i, (modpath, rule, pat, inputs) in enumerate(SEM_MODULES):
             for how in ('module', 'object'):
                 d, info = check_semantics_pickle(modpath, rule, pat, inputs, how)
@@ -370,6 +420,12 @@ def run_shard(sh, kind, n):
 def replay(case):
     if case.get('kind') == 'structure':
         return check_structure(case['structure'])
+    if case.get('kind') == 'threads':
+        for _ in range(5):      # a schedule-dependent failure: several attempts
+            d = check_threads(case['index'])
+            if d:
+                return d
+        return None
     if case.get('kind') == 'pickle-semantics':
         d, _ = check_semantics_pickle(*SEM_MODULES[case['index']], case['how'])
         return d
